@@ -800,6 +800,14 @@ def lin(ctx, t, depth=0):
     if v is not None:
         return {1: Fraction(v)}
     k = t[0]
+    if k == "field" and len(t) > 2 and str(t[2]) in ("0", ".0") :
+        # the index of `for (i, x) in xs.iter().enumerate()`: 0 + 1 * <loop>
+        if t[1][0] == "some":
+            n = strip(t[1])
+            if n[0] == "call" and n[2].split("::")[-1] == "next" and n[3]:
+                it = strip(n[3][0])
+                if it[0] == "call" and it[2].split("::")[-1] == "enumerate":
+                    return {"<loop>": Fraction(1)}
     if k in ("param", "field"):
         p = path_of(t)
         if p:
@@ -812,6 +820,14 @@ def lin(ctx, t, depth=0):
     if k == "call":
         return {term_str(t): Fraction(1)}
     if k in ("some", "ok", "await", "variant", "index"):
+        if k == "some":
+            so = stride_of(t[1]) if t[1][0] == "call" else None
+            if so is not None and depth < 6:
+                base = lin(ctx, so[0], depth + 1)   # an element of a..b (.step_by(s)): start + n * step
+                if base is not None:
+                    base = dict(base)
+                    base["<loop>"] = base.get("<loop>", 0) + Fraction(1)
+                    return base
         return {term_str(t): Fraction(1)}   # an opaque value (e.g. the element an iterator yields)
     if k == "join":
         non = [x for x in t[1] if not contains(x, lambda s: isinstance(s, tuple) and s and s[0] == "cycle")]
@@ -889,6 +905,12 @@ def stride_of(term):
                 return agg_field(rng, "start"), it[3][1]
         if is_agg(it) and it[1].split("::")[-1] == "Range":
             return agg_field(it, "start"), ("lit", 1)
+        if it[0] == "call" and it[2].split("::")[-1] == "step_by" and len(it[3]) == 2:
+            rng = strip(it[3][0])
+            if rng[0] == "call" and rng[2].endswith("RangeInclusive::<Idx>::new") and len(rng[3]) == 2:
+                return rng[3][0], it[3][1]
+        if it[0] == "call" and it[2].endswith("RangeInclusive::<Idx>::new") and len(it[3]) == 2:
+            return it[3][0], ("lit", 1)
     return None
 
 
